@@ -10,7 +10,7 @@
    the right trace is REFUTED twice on the current tree (findings F11, F13) and otherwise
    checked by correspondence and by an independent recomputation on the implementation. *)
 From JS Require Import Base Bytes Scanner ScanRun Core Entry C07Proofs.
-From JS Require ErrInFile ScannerProg CoreErrLoc BuildErrLoc Catalog BanBuild.
+From JS Require ErrInFile ScannerProg CoreErrLoc BuildErrLoc Catalog BanBuild ProjectSafe.
 Open Scope Z_scope.
 
 Theorem C07_line_and_column :
@@ -31,6 +31,20 @@ Theorem C07_scanner_errors_point_into_the_file :
     let '(_, e, _) := lex_traj data tbl fuel (init_conf ScannerProg.initial_state) in
     match e with EndErr err => ErrInFile.in_file data err | _ => True end.
 Proof. exact ErrInFile.scanner_errors_point_into_the_file. Qed.
+
+(* ... and for WHOLE PROJECTS (Proofs/ProjectSafe.v): wherever a run of scanProject stops - in the
+   root file or in any included file, after any number of suspensions and resumptions - an error
+   that Next() raises there points into the file being scanned: 0 <= index <= length of THAT file *)
+Theorem C07_project_scanner_errors_point_into_their_file :
+  forall fs olen root_name root_content fuel,
+    match scan_project ScannerProg.prog_table ScannerProg.is_newline_cond ScannerProg.is_whitespace_cond fs olen
+                       ScannerProg.initial_state fuel (initial_cstate ScannerProg.initial_state root_name root_content) with
+    | SDone stx | SErr _ stx | SPanic _ stx =>
+        forall e0, scan_next ScannerProg.prog_table ScannerProg.is_newline_cond ScannerProg.is_whitespace_cond olen stx = RErr e0 ->
+                   ErrInFile.in_file (file_content stx (cs_file stx)) e0
+    | SFuel => True
+    end.
+Proof. exact ProjectSafe.project_scanner_errors_point_into_their_file. Qed.
 
 (* the scanning phase of a whole project, for every scanner program, file system, oracle, include
    tree and fuel: the error scanProject ends with is located in the file that is being scanned at
@@ -85,3 +99,4 @@ Print Assumptions C07_refuted_tracer_cache.
 Print Assumptions C07_scan_phase_errors_are_located.
 Print Assumptions C07_directive_layer_errors_sit_on_the_lexeme_or_the_pending_directive.
 Print Assumptions C07_builder_errors_sit_on_a_directive_of_the_forest.
+Print Assumptions C07_project_scanner_errors_point_into_their_file.
